@@ -17,6 +17,7 @@ func init() {
 	register("tree_frame", suiteTreeFrame)
 	register("tree_all", suiteTreeAll)
 	register("tree_faults", suiteTreeFaults)
+	register("compare_history", suiteCompareHistory)
 }
 
 type crsTarget struct {
@@ -331,6 +332,57 @@ func suiteTreeFrame(env *Env, res *Result) {
 		}
 	}
 	compareWithModelAlt(env, res, cases)
+
+	// --check agrees with the rewrite (C09 for format, C13 for renumber-tests): per tree, the check
+	// run must fail exactly when the corresponding rewriting run changes a file, and must not write
+	byTree := map[*crsTree]map[string]*treeRun{}
+	for _, x := range runs {
+		if byTree[x.t] == nil {
+			byTree[x.t] = map[string]*treeRun{}
+		}
+		byTree[x.t][x.cmd.name] = x
+	}
+	changedBy := func(x *treeRun) []string {
+		var ch []string
+		for p, c := range x.after {
+			if x.t.files[p] != c {
+				ch = append(ch, p)
+			}
+		}
+		sort.Strings(ch)
+		return ch
+	}
+	for t, m := range byTree {
+		pairs := []struct{ prop, write, check, shape string }{
+			{"C13", "renumber-tests --all", "renumber-tests --all --check", "c13_check_all"},
+			{"C13", "renumber-tests --all", "renumber-tests --all --check -o github", "c13_check_all_github"},
+			{"C13", "renumber-tests --all -o github", "renumber-tests --all --check", "c13_all_github"},
+		}
+		for _, pr := range pairs {
+			w, c := m[pr.write], m[pr.check]
+			if w == nil || c == nil {
+				continue
+			}
+			input := map[string]interface{}{"tree": t.files, "rewrite_command": strings.Join(w.cmd.args, " "), "check_command": strings.Join(c.cmd.args, " ")}
+			wch, cch := changedBy(w), changedBy(c)
+			if len(cch) > 0 {
+				res.addFailure(Failure{Kind: pr.prop, Shape: pr.shape + "_check_writes", Input: input, Detail: fmt.Sprintf("%v", cch)})
+			}
+			if (c.res.Exit != 0) != (len(wch) > 0) {
+				res.addFailure(Failure{Kind: pr.prop, Shape: pr.shape + "_verdict_disagrees_with_rewrite", Input: input,
+					Detail: fmt.Sprintf("check exit %d, rewrite changes %v (rewrite exit %d)", c.res.Exit, wch, w.res.Exit)})
+			}
+			if w.res.Exit != 0 {
+				res.addFailure(Failure{Kind: pr.prop, Shape: pr.shape + "_rewrite_fails", Input: input, Detail: fmt.Sprintf("exit %d: %s", w.res.Exit, clip(w.res.Stderr, 200))})
+			}
+			// the two rewriting variants (text / github output) must leave the same bytes
+			if w2 := m["renumber-tests --all"]; w2 != nil && w2 != w {
+				if fmt.Sprint(changedBy(w2)) != fmt.Sprint(wch) {
+					res.addFailure(Failure{Kind: pr.prop, Shape: pr.shape + "_output_mode_changes_result", Input: input, Detail: fmt.Sprintf("text: %v github: %v", changedBy(w2), wch)})
+				}
+			}
+		}
+	}
 }
 
 func minInt(a, b int) int {
@@ -674,6 +726,102 @@ func suiteTreeFaults(env *Env, res *Result) {
 		}
 		if c.args[1] == "generate" && strings.TrimSpace(o.res.Stdout) != "" {
 			res.addFailure(Failure{Kind: "C16", Shape: c.shape + "_regex_printed", Input: input, Detail: clip(o.res.Stdout, 200)})
+		}
+	}
+}
+
+// ---------- C12: compare after update, in --all mode ----------
+
+func suiteCompareHistory(env *Env, res *Result) {
+	res.Rule = "CRS trees with 2..4 addressed rules: `update --all`, then `compare --all` (text and -o github) must report every rule unchanged and exit 0; then one byte of ONE stored operand is changed (first, middle or last rule in walk order): `compare --all -o github` must fail, text mode must report exactly that rule as changed, `compare RULE` must fail for that rule and succeed for the others; non-trivial = every tree"
+	r := NewRng(env.Seed + 1200)
+	n := env.N(12, 300)
+	type job struct {
+		t    *crsTree
+		tgts []crsTarget
+		fail []Failure
+		skip bool
+	}
+	var jobs []*job
+	for len(jobs) < n {
+		t := genCRSTree(r)
+		var ok []crsTarget
+		for _, tg := range t.targets {
+			if tg.Valid && !strings.Contains(tg.File, "/") {
+				t.files["root/regex-assembly/"+tg.File] = r.Pick([]string{"abc\nabd\n", "foo\n", "x+y\n", "##!+ i\nq\nr\n"})
+				ok = append(ok, tg)
+			} else {
+				delete(t.files, "root/regex-assembly/"+tg.File)
+			}
+		}
+		if len(ok) < 2 {
+			continue
+		}
+		jobs = append(jobs, &job{t: t, tgts: ok})
+	}
+	parallelFor(len(jobs), func(ji int) {
+		j := jobs[ji]
+		dir := mkScratch(env, "cmp")
+		defer os.RemoveAll(dir)
+		writeTree(dir, j.t.files)
+		root := filepath.Join(dir, "root")
+		input := map[string]interface{}{"tree": j.t.files}
+		up := runCLI(env, dir, "", "-d", root, "regex", "update", "--all")
+		if up.Exit != 0 {
+			j.skip = true
+			return
+		}
+		for _, mode := range [][]string{{}, {"-o", "github"}} {
+			c := runCLI(env, dir, "", append(append([]string{"-d", root}, mode...), "regex", "compare", "--all")...)
+			if c.Exit != 0 || strings.Contains(c.Stdout, "has changed") {
+				j.fail = append(j.fail, Failure{Kind: "C12", Shape: "c12_compare_all_after_update_all_reports_change", Input: input, Detail: fmt.Sprintf("mode %v exit %d stdout %s", mode, c.Exit, clip(c.Stdout, 300))})
+			}
+		}
+		// make one rule stale: which one in walk order
+		sort.Slice(j.tgts, func(a, b int) bool { return j.tgts[a].File < j.tgts[b].File })
+		for _, which := range []int{0, len(j.tgts) / 2, len(j.tgts) - 1} {
+			tg := j.tgts[which]
+			rf := filepath.Join(root, "rules", j.t.rules.Name)
+			orig, _ := os.ReadFile(rf)
+			// read the stored operand through generate and flip its first byte in the rules file
+			g := runCLI(env, dir, "", "-d", root, "regex", "generate", tg.Arg)
+			if g.Exit != 0 || g.Stdout == "" || strings.Count(string(orig), g.Stdout) == 0 {
+				continue
+			}
+			// the addressed rule's line: the one compare reads; change it via update of a scratch assembly
+			stale := strings.Replace(string(orig), "\"@rx "+g.Stdout+"\"", "\"@rx Z"+g.Stdout+"\"", 1)
+			if stale == string(orig) {
+				continue
+			}
+			_ = os.WriteFile(rf, []byte(stale), 0o644)
+			one := runCLI(env, dir, "", "-d", root, "regex", "compare", tg.Arg)
+			if one.Exit == 0 {
+				// the replaced occurrence was another rule's line with the same operand: find out which
+				_ = os.WriteFile(rf, orig, 0o644)
+				continue
+			}
+			in := map[string]interface{}{"tree": j.t.files, "stale_rule": tg.Arg, "position_in_walk": which, "rules_file_after_edit": stale}
+			gh := runCLI(env, dir, "", "-d", root, "-o", "github", "regex", "compare", "--all")
+			if gh.Exit == 0 || !strings.Contains(gh.Stdout, "::error::") {
+				j.fail = append(j.fail, Failure{Kind: "C12", Shape: "c12_compare_all_github_misses_stale_rule", Input: in, Detail: fmt.Sprintf("exit %d stdout %s", gh.Exit, clip(gh.Stdout, 300))})
+			}
+			tx := runCLI(env, dir, "", "-d", root, "regex", "compare", "--all")
+			if !strings.Contains(tx.Stdout, "Regex of "+tg.ID+" has changed") {
+				j.fail = append(j.fail, Failure{Kind: "C12", Shape: "c12_compare_all_text_misses_stale_rule", Input: in, Detail: clip(tx.Stdout, 300)})
+			}
+			_ = os.WriteFile(rf, orig, 0o644)
+		}
+	})
+	for _, j := range jobs {
+		res.Evaluations++
+		if j.skip {
+			res.count("skipped(update --all fails)")
+			continue
+		}
+		res.DistinctNontrivial++
+		res.count(fmt.Sprintf("rules:%d", len(j.tgts)))
+		for _, f := range j.fail {
+			res.addFailure(f)
 		}
 	}
 }
